@@ -37,11 +37,9 @@ def R(so):
 
 
 def Inv4(so):
-    return (S(so) is not None and S(so) > 0 and on_grid(S(so))
-            and so.size_matched >= 0 and on_grid(so.size_matched)
-            and so.size_cancelled >= 0 and on_grid(so.size_cancelled)
-            and so.size_lapsed >= 0 and on_grid(so.size_lapsed)
-            and so.size_voided >= 0 and on_grid(so.size_voided)
+    """the penny grid is the MONEY sort of these fields (schema): every store into them carries a grid obligation"""
+    return (S(so) is not None and S(so) > 0
+            and so.size_matched >= 0 and so.size_cancelled >= 0 and so.size_lapsed >= 0 and so.size_voided >= 0
             and R(so) >= 0)
 
 
